@@ -139,3 +139,58 @@ for _pid in ("C04", "C12"):
         assumptions=["time model of DESIGN 3.6: lower bounds only (arbitrary delays anywhere); Sleep(d) advances by >= d",
                      "count formulas follow from the per-batch facts: count <= (k+1)*Q and t >= k*I  =>  count <= Q*(floor(t/I)+1); window: (j-i-1)*I <= W => count <= Q*(floor(W/I)+2)"],
         groups=[dict(mod="v2", pkg="limit", overlay="harness/v2/limit", harness="^VerifC04_limit_run", params=_LIM)])
+
+# ---- priority discipline ------------------------------------------------------------------------------
+
+_PRIO_ASSUME = [
+    "single-goroutine confinement (DESIGN 4.1): only the scheduling goroutine touches the discipline's mutable fields; a schedule is the sequence of outcomes of its own channel operations",
+    "environment contract: a release token for priority p arrives only while an item of p is in flight; producers write each item once; closed channels stay closed",
+    "step obligations start from an ARBITRARY state satisfying the representation invariant (sum(actual) <= H, sum(strategic over configured) <= H as mathematical integers, ghost == actual); "
+    "the invariant is asserted at every round head of the bounded runs from New, so it is not stronger than what runs reach",
+    "the divider is an arbitrary function writing the listed priorities and one foreign key (stub S1), filtered only by the real safeDivide; runs at loop level use an arbitrary SUM-PRESERVING divider except at the injected fault",
+    "machine integers: Int encoding with explicit mod 2^64 on every operation that can wrap (exact Go semantics)",
+]
+
+def _v2p(harness, q, t, **kw):
+    return dict(mod="v2", pkg="priority", overlay="harness/v2/priority", harness=harness, params=dict(quick=q, thorough=t), **kw)
+
+_G_STEP = _v2p("^VerifC01_step_(calcTactic|recalcTactic|io|feedback)$", dict(n=[1, 2, 3], J=[2]), dict(n=[1, 2, 3, 4], J=[3]))
+_G_PRIOR = _v2p("^VerifC01_step_prioritize$", dict(n=[1, 2], J=[1]), dict(n=[1, 2], J=[2]))
+_G_LOOP1 = _v2p("^VerifC07_(loop|main)$", dict(n=[1], J=[1], B=[1], K=[1]), dict(n=[1], J=[2], B=[2], K=[2]))
+_G_PROMPT = _v2p("^VerifC07_prompt$", dict(n=[1, 2, 3], B=[2]), dict(n=[1, 2, 3, 4], B=[3]))
+_G_NEW = _v2p("^VerifC15_(new|safeDivide)$", dict(n=[1, 2, 3]), dict(n=[1, 2, 3, 4]))
+_G_ROUND = _v2p("^Verif(C05_saturated_round|C06_progress|C06_sole_priority)$", dict(n=[1, 2], Hmax=[3]), dict(n=[1, 2, 3], Hmax=[4]))
+_G_RUN = _v2p("^VerifC02_run$", dict(n=[1, 2], H=[1, 2], J=[1]), dict(n=[1, 2], H=[1, 2, 3], J=[2]), maxpaths=400000)
+_G_SIMPLE = dict(mod="v2", pkg="priority/simple", overlay="harness/v2/simple", harness="^VerifC01_simple_handler$",
+                 params=dict(quick=dict(H=[1, 2], K=[3]), thorough=dict(H=[1, 2, 3], K=[4])))
+
+_PRIO_NOTE = ("Bounds: n configured priorities (quick <=3, thorough <=4) with symbolic 64-bit values; J items per input per call; H and all counters are unconstrained 64-bit words in the step "
+              "obligations; bounded runs from New use H<=2 (3), <=2 inputs, <=1 (2) items each. Outside: n beyond the bound, dividers that write more than one foreign key, handlers that release what they never received. "
+              "Trusted: engine, channel/select/ticker model, stubs listed in evidence.")
+
+def _prio(pid, text, groups, **kw):
+    PROPS[pid] = dict(level="model_checking", level_text=text, level_note=_PRIO_NOTE,
+                      technique="symbolic execution of go/ssa: inductive step obligations from arbitrary states + bounded runs; Int-encoded SMT (z3)",
+                      assumptions=_PRIO_ASSUME, bounds=dict(quick="see level_note (quick bounds)", thorough="see level_note (thorough bounds)"), groups=groups, **kw)
+
+_prio("C01", "In-flight <= HandlersQuantity: the capacity monitor (ghost handed-out minus released, +1 <= H) runs at the instant of every output write on every path of every real function of the round "
+      "(calcTactic, recalcTactic, io, iou, prioritize, feedback readers), each started from an arbitrary state satisfying the invariant and shown to preserve it (inductive step: histories of any length), "
+      "plus loop()/main() runs with releases at every point, runs from New, the constructor establishing the invariant, and the simple handler's receive->Handle->Release order.",
+      [_G_STEP, _G_PRIOR, _G_LOOP1, _G_NEW, _G_RUN, _G_SIMPLE])
+_prio("C02", "Exactly-once, correctly tagged, FIFO per priority: pending-item monitor (an input read is followed by the output write of exactly that item with the priority its channel is registered under, "
+      "before any other read) on all step and loop paths; completeness and per-priority order on bounded runs from New to termination; Handle exactly once per item in the simple handler.",
+      [_G_STEP, _G_PRIOR, _G_LOOP1, _G_RUN, _G_SIMPLE])
+_prio("C05", "Saturation: from any state with actual[p] <= strategic[p] (shares as the constructor leaves them) and every input never empty, after any batch of releases one real base() round ends with "
+      "actual[p] == strategic[p] for every p, every hand-out keeps actual[p] <= strategic[p], and waits only when all handlers are busy; the constructor sorts priorities high->low before dividing (any Inputs map order).",
+      [_G_ROUND, _G_NEW])
+_prio("C06", "Progress, reduced to solver-decidable obligations plus the ranking argument of DESIGN 7 C06: (P0) constructor guarantees every share >= 1 and shares sum to H; (P1) the discipline blocks on feedback only while "
+      "something is in flight (loop/main/run harnesses); (P2) nothing in flight + data somewhere => an item is delivered in one round without a release; (P3) a round proceeds only if every uncrowded priority got >= 1; "
+      "(P4) a sole active priority reaches H in one round.",
+      [_G_ROUND, _G_NEW, _G_LOOP1, _G_RUN, _v2p("^VerifC01_step_calcTactic$", dict(n=[1, 2, 3]), dict(n=[1, 2, 3, 4]))])
+_prio("C07", "Termination exactly when drained and released: real loop()/main() from arbitrary between-rounds states with every input open / closed-with-backlog / drained: output and err are closed only with nothing in flight "
+      "and (normal mode) all inputs closed, empty and marked drained; Drained is set only on an observed close; promptness (returns after exactly g releases, no idle sleep); no error value in normal mode.",
+      [_G_LOOP1, _G_PROMPT, _v2p("^VerifC01_step_io$", dict(n=[1, 2, 3], J=[2]), dict(n=[1, 2, 3, 4], J=[3])), _G_RUN, _G_SIMPLE])
+_prio("C15", "Divider contract and fail-safe faults: the stub divider ASSERTS its arguments (non-nil distribution, dividend <= H, list of configured priorities strictly descending) at every call on every path; "
+      "a fault (non-zero added total != dividend) injected at any call of a round or of the constructor yields ErrDividerBad from safeDivide/New/loop, no hand-out afterwards, capacity monitor still holds, "
+      "main reports exactly that value and closes; New rejects zero shares (Fair exact, Rate for any float values, arbitrary sum-preserving divider).",
+      [_G_NEW, _G_STEP, _G_LOOP1])
